@@ -403,9 +403,10 @@ def run_history(wb, oracle, hist):
                 own[addr] = r
                 states_since[addr] = []
             st = dict(inputs)
+            sk = tuple(sorted((a, vkey(v)) for a, v in st.items()))     # typed: True, 1 and 1.0 are different inputs
             for a in formulas:
-                if a != addr and (not states_since[a] or states_since[a][-1] != st):
-                    states_since[a].append(st)
+                if a != addr and (not states_since[a] or states_since[a][-1][0] != sk):
+                    states_since[a].append((sk, st))
             obs.append(f'e~{r}~{stored}')
         else:
             got = common.call_real(ev.get_cell_value, handle)
@@ -413,7 +414,7 @@ def run_history(wb, oracle, hist):
                 cands = {own.get(addr, 'Z')}
                 if addr not in own:
                     cands.add('Z')
-                for st in states_since[addr]:
+                for _sk, st in states_since[addr]:
                     cands.add(oracle.value(st, addr))
                 ok = got in cands
                 want = sorted(cands)
